@@ -1,6 +1,7 @@
 /* C15 / buffer_node (KIND 0), queue_node (KIND 1), priority_queue_node (KIND 2, std::less<int>): the real node (aggregator handler inline, forwarder task, round-robin
  * successor cache, item_buffer) driven through its public interface by operation sequences. One query = every sequence
  * number k in [FROM,FROM+CNT) (first op T, then LEN-1 ops = base-6 digits of k) x every accept pattern in ACCS:
+ * (an op whose precondition does not hold -- release/consume without reservation, X without a pending task -- is skipped)
  *   T try_put(v)  G try_get  R try_reserve  L try_release  C try_consume  X run the oldest spawned task (forwarder)
  * Messages are symbolic 32-bit values, pairwise distinct among the buffered ones (assumed).  NSUCC harness receivers are registered as successors; every offer
  * is accepted iff the corresponding bit of the accept pattern is set (k-th offer <-> bit k; concrete per scenario: a symbolic answer turns
@@ -89,10 +90,10 @@ static void run(unsigned k, unsigned accpat) {
         for (unsigned i = 0; i < n; i++) VP_ASSERT(m[i] <= out, "priority_queue_node: reserved message is not a highest-priority one");
 #endif
         reserved = 1; res_idx = k2; res_val = out; } }
-    else if (op == L) { if (!reserved) return; vp_release(); reserved = 0; front_changed(); }
-    else if (op == C) { if (!reserved) return; vp_consume(); int k2 = find(res_val);
+    else if (op == L) { if (!reserved) continue; vp_release(); reserved = 0; front_changed(); }
+    else if (op == C) { if (!reserved) continue; vp_consume(); int k2 = find(res_val);
       VP_ASSERT(k2 == res_idx && k2 >= 0, "reserved message vanished before consume"); remove_at(res_idx); reserved = 0; front_changed(); }
-    else if (op == X) { if (!bag_n) return; run_one(); }
+    else if (op == X) { if (!bag_n) continue; run_one(); }
     VP_ASSERT((vp_reserved() != 0) == (reserved != 0), "node reservation flag differs from the abstract one");
 #if KIND == 2   /* the priority queue takes the reserved item out of the heap and keeps it aside */
     VP_ASSERT(vp_tail() - vp_head() == n - (reserved ? 1 : 0), "node size differs from the abstract buffer");
